@@ -274,6 +274,8 @@ pub fn get_best_move(
     time_to_move_ms: u128,
     tx: &BoardSender,
 ) {
+    #[cfg(walleye_verif)]
+    crate::verif::sched_point("start");
     let mut cur_depth = 1;
     let ply_from_root = 0;
     let mut best_move: Option<BoardState> = None;
@@ -327,6 +329,8 @@ pub fn get_best_move(
                 alpha = evaluation;
                 best_move = Some(mov.clone());
                 search_info.set_principle_variation();
+                #[cfg(walleye_verif)]
+                crate::verif::sched_point("accept");
                 // the move and its info line go out together while the receiver is still listening;
                 // once it has answered the GUI (it closes the channel, holding the same lock) this
                 // search is over: an info line must never follow the bestmove of its go
